@@ -140,13 +140,42 @@ type CountingInterceptor struct {
 	Panics bool
 	// Kind of panic value when Panics: 0 string, 1 error, 2 runtime.Error from a nil-map write, 3 runtime.Error from an
 	// index out of range, 4 runtime.Error from a nil dereference, 5 a value of a custom type
-	Kind  int
+	Kind int
+	// Shape of the value registered in Config.Consumer.Interceptors: 0 the pointer itself, 1 a func-typed adapter
+	// (unhashable dynamic type), 2 a by-value struct holding a slice (unhashable dynamic type)
+	Shape int
 	mu    sync.Mutex
 	Calls map[int64]int
 	Order []int64
 }
 
 type customPanic struct{ code int }
+
+// funcInterceptor: a function type implementing sarama.ConsumerInterceptor (cannot be a map key).
+type funcInterceptor func(*sarama.ConsumerMessage)
+
+func (f funcInterceptor) OnConsume(m *sarama.ConsumerMessage) { f(m) }
+
+// sliceInterceptor: a struct value holding a slice (cannot be a map key either).
+type sliceInterceptor struct {
+	inner *CountingInterceptor
+	notes []string
+}
+
+func (s sliceInterceptor) OnConsume(m *sarama.ConsumerMessage) { s.inner.OnConsume(m) }
+
+var InterceptorShapes = []string{"pointer", "func-adapter", "struct-with-slice"}
+
+// Registered is the value to put into Config.Consumer.Interceptors.
+func (c *CountingInterceptor) Registered() sarama.ConsumerInterceptor {
+	switch c.Shape {
+	case 1:
+		return funcInterceptor(c.OnConsume)
+	case 2:
+		return sliceInterceptor{inner: c, notes: []string{"x"}}
+	}
+	return c
+}
 
 var PanicKinds = []string{"string", "error", "runtime:nil-map-write", "runtime:index-out-of-range", "runtime:nil-dereference", "custom-type"}
 
@@ -413,7 +442,7 @@ func RunE2E(seed int64, sc E2EScenario) E2EResult {
 		conf.Consumer.IsolationLevel = sarama.ReadCommitted
 	}
 	for _, ic := range sc.Interceptors {
-		conf.Consumer.Interceptors = append(conf.Consumer.Interceptors, ic)
+		conf.Consumer.Interceptors = append(conf.Consumer.Interceptors, ic.Registered())
 	}
 	master, err := sarama.NewConsumer([]string{broker.Addr()}, conf)
 	if err != nil {
@@ -576,8 +605,12 @@ loop:
 	res.Events = sub.events
 	sub.mu.Unlock()
 	// shut down; a consumer whose goroutines died would never close its channels: bounded waits (C12 owns shutdown)
+	closeWait := 3 * time.Second
+	if atomic.LoadInt32(&stalledRuns) > 4 {
+		closeWait = 300 * time.Millisecond // the tree is broken anyway: do not wait long for goroutines that died
+	}
 	pc.AsyncClose()
-	deadline := time.After(3 * time.Second)
+	deadline := time.After(closeWait)
 drain:
 	for {
 		select {
@@ -595,7 +628,7 @@ drain:
 	}
 	select {
 	case <-errDone:
-	case <-time.After(3 * time.Second):
+	case <-time.After(closeWait):
 		res.CloseHung = true
 	}
 	for _, xp := range extras {
@@ -612,7 +645,7 @@ drain:
 	}()
 	select {
 	case <-xdone:
-	case <-time.After(3 * time.Second):
+	case <-time.After(closeWait):
 		res.CloseHung = true
 	}
 	errsMu.Lock()
